@@ -38,7 +38,10 @@ MENU = ['x.py', 'x.pyc', 'x.pyo', 'y.pyc', 'z.pyo', '.pyc', 'pyc', 'X.PYC',
         'sub_compat/c2.pyc',
         # the same base name in a directory searched later (x.py lives in the
         # root), and a directory whose name looks like a shell pattern
-        'sub/x.pyc', 'sub/deep/x.pyo', 'da[t]a/o.pyc', 'da[t]a/inner/p.pyo']
+        'sub/x.pyc', 'sub/deep/x.pyo', 'da[t]a/o.pyc', 'da[t]a/inner/p.pyo',
+        # names that mean something to printf / str.format / a terminal
+        '100%.pyo', 'my%20docs/r.pyc', '%s/%d.pyc', '{0}.pyc', 'caf\xe9.pyc',
+        'a b/c d.pyc', 'node_modules/deep/m.pyo']
 CORE = 12        # the flat names at the front of the menu
 OPTS = {
     'path': lambda r: ['--path', r],
@@ -154,8 +157,10 @@ def classify(entries, ok):
         if sib in files:
             continue
         stem = base[:-4]
-        weird_dir = any((not p.isidentifier()) or p == 'node_modules' for p in parts)
-        if stem == '' or weird_dir:
+        # (the scan descends into every directory that --ignore_dir does not
+        # name: node_modules and directories that are no identifiers are
+        # "searched" by it although discovery skips them)
+        if stem == '':
             may.add(e)
         else:
             must.add(e)
